@@ -168,3 +168,33 @@ package db
 //@ apply ErrFlow: (*collection).exists
 //@ func (*collection).exists
 //@   tolerates call#1 Get when is(e, corekv.ErrNotFound) "an absent primary key means the document does not exist: reported as (false, false, nil)"
+//@
+//@ // ===== C12: commits are signed by the node identity whenever the request identity cannot sign ========
+//@ // (the same fallback must hold on the save path and on the delete path)
+//@ extern identity.FromContext(ctx) -> (i)
+//@   pure
+//@   nodefault
+//@   opt alias=ctxIdent sig=iface:immutable.Option[identity.Identity]
+//@ extern identity.WithContext(ctx, i) -> (r)
+//@   ensures ctxIdent(r) == i
+//@   nodefault
+//@ extern coreblock.ContextWithEnabledSigning(ctx) -> (r)
+//@   ensures ctxIdent(r) == ctxIdent(ctx)
+//@   nodefault
+//@ extern db.hasPrivateKey(i) -> (b)
+//@   pure
+//@   nodefault
+//@ extern (immutable.Option[identity.Identity]).HasValue(o) -> (b)
+//@   pure
+//@   nodefault
+//@ extern (immutable.Option[identity.Identity]).Value(o) -> (v)
+//@   pure
+//@   nodefault
+//@ func (*collection).applyDelete
+//@   assert before call#1 AddDelta: (!res(HasValue, 1, 0) || !res(hasPrivateKey, 1, 0)) && res(HasValue, 2, 0) ==> ctxIdent(arg0) == callarg(HasValue, 2, 0)
+//@   assert before call#1 hasPrivateKey: arg0 == res(Value, 1, 0) && callarg(Value, 1, 0) == res(FromContext, 1, 0) && callarg(HasValue, 1, 0) == res(FromContext, 1, 0)
+//@   tags C12
+//@ func (*collection).save
+//@   assert before call#2 AddDelta: (!res(HasValue, 1, 0) || !res(hasPrivateKey, 1, 0)) && res(HasValue, 2, 0) ==> ctxIdent(arg0) == callarg(HasValue, 2, 0)
+//@   assert before call#1 hasPrivateKey: arg0 == res(Value, 1, 0) && callarg(Value, 1, 0) == res(FromContext, 1, 0) && callarg(HasValue, 1, 0) == res(FromContext, 1, 0)
+//@   tags C12
